@@ -18,6 +18,8 @@ pub fn generate(stream: &str, seed: u64, n: usize, emit: &mut dyn FnMut(String))
 		"api" => api::generate(seed, n, emit),
 		"rt" => ser::generate_rt(seed, n, emit),
 		"rt-td" => ser::generate_rt_td(seed, n, emit),
+		"prio" => ser::generate_prio(seed, n, emit),
+		"freeze-table" => ser::generate_freeze_table(emit),
 		"chain" => schema::generate_chain(emit),
 		"single" => ser::generate_single(seed, n, emit),
 		"schema" | "schema-bad" => schema::generate(stream, seed, n, emit),
